@@ -55,8 +55,8 @@ Definition reduce_args (a_start : Z) (a_end : Z) (m_start : Z) (m_offset : Z) (i
   Ok (Some strides, Some total_buffer_len, order)))) (fun '(strides, total_buffer_len, order) =>
   Ok (offset, order, strides, total_buffer_len))).
 
-Definition forward_memmaps (hasobject : bool) (dtype_kind : Z) (max_nbytes : option Z) (nbytes : Z) : result bool :=
-  Ok (((negb hasobject) && (match max_nbytes with None => false | Some max_nbytes => (nbytes >? max_nbytes) end))).
+Definition forward_memmaps (hasobject : bool) (dtype_kind : Z) (max_nbytes : option Z) (mmap_mode : option Z) (nbytes : Z) : result bool :=
+  Ok (((negb hasobject) && (match max_nbytes with None => false | Some max_nbytes => (match mmap_mode with None => false | Some mmap_mode => (nbytes >? max_nbytes) end) end))).
 
 (* numpy 2.4.6 used by the implementation side: hasattr(numpy.ndarray, '__array_prepare__') *)
 Definition numpy_has_array_prepare : bool := false.
